@@ -135,7 +135,35 @@ def fw(prop, tier, seed):
     return fwcheck.check_fw(prop, tier, seed, plan, plan["verdicts"])
 
 
+C10_PLAN = dict(
+    rule="pairs (X deterministic, Y any) x positions x histories enumerated by TLC, plus random X / 1-3 random neighbours / random positions; every case is run solo and combined on the real code",
+    assumptions=FW_ASSUME + ["X is deterministic (probability-1 transitions, constant distributions), never signals and has no transitions on Signal; no framework-wide fractions"],
+    quick=dict(
+        mc=[dict(pairs="quick", alphabet="small", calls=3, batch=1, steps="mixed"),
+            dict(pairs="quick", alphabet="full", calls=2, batch=1, steps="one")],
+        gen=[dict(pairs="quick", alphabet="small", calls=2, batch=1, steps="one")],
+        rand=dict(cases=400, calls=40)),
+    thorough=dict(
+        workers=14,
+        mc=[dict(pairs="quick", alphabet="small", calls=2, batch=2, steps="mixed"),
+            dict(pairs="thorough", alphabet="small", calls=3, batch=1, steps="mixed"),
+            dict(pairs="thorough", alphabet="full", calls=2, batch=1, steps="one")],
+        gen=[dict(pairs="thorough", alphabet="small", calls=3, batch=1, steps="one")],
+        rand=dict(cases=5000, calls=80)))
+
+
+def c10(prop, tier, seed):
+    return fwcheck.check_c10(prop, tier, seed, C10_PLAN)
+
+
+def c06(prop, tier, seed):
+    import smallchecks
+    return smallchecks.check_c06(prop, tier, seed)
+
+
 CHECKS = {p: fw for p in FW_PLANS}
+CHECKS["C10"] = c10
+CHECKS["C06"] = c06
 
 
 FW_TEXT = ("TLC checks the property invariant on mechanism || observer exhaustively within small constants; "
@@ -152,9 +180,29 @@ for _p, _sec in [("C01", "6/C01"), ("C02", "6/C02"), ("C03", "6/C03"), ("C04", "
                     design_ref="DESIGN.md section " + _sec,
                     technique="TLA+ mechanism+observer spec, TLC exhaustive; TLC-generated behaviours replayed on the code; trace validation of recorded executions")
 
+META["C10"] = dict(
+    engine="framework", level="model_checking",
+    text=("TLC checks on two instances of the mechanism (X next to Y in either position, X alone) that the actions for X "
+          "agree after every call, for all pairs of a curated family and all histories within the bounds; the TLC-enumerated "
+          "cases and random cases (random deterministic X, 1-3 random neighbours, random position) are run solo and combined "
+          "on the real framework and the recorded action pairs are compared by the trace spec"),
+    note="trusted: TLC, harness; bounded: pairs of the curated family, <= 3 calls; random part is sampling",
+    design_ref="DESIGN.md section 6/C10",
+    technique="TLA+ two-instance spec (NonInterference.tla), TLC exhaustive; paired runs of the real code validated by a trace spec")
+META["C06"] = dict(
+    engine="sampling", level="model_checking",
+    text=("TLC checks for every weight vector (<= 3 targets, resolution R = 16/32) that Pick chooses target i on exactly w_i draws; "
+          "the real State::sample_state is enumerated over all 2^23 values of the draw for each listed vector and the per-target "
+          "counts and bucket bounds are validated against the same Pick by the trace spec (exhaustive, not statistical)"),
+    note="trusted: TLC, the counting RNG; the vectors enumerated on the code are a finite list (dyadic grid, f32 corners, non-dyadic, seeded random)",
+    design_ref="DESIGN.md section 6/C06",
+    technique="TLA+ spec of the sampling function checked by TLC over all vectors; complete enumeration of the implementation's draw space validated against the spec")
+
 ENGINES = [
+    dict(name="sampling", path="/verif/spec/Sampling.tla", serves_properties=["C06"],
+         kind_free_text="TLA+ spec of State::sample_state, TLC over all small vectors, sampling_enum enumerates all 2^23 draws"),
     dict(name="framework", path="/verif/spec/Framework.tla",
-         serves_properties=["C01", "C02", "C03", "C04", "C05", "C07", "C08", "C09"],
+         serves_properties=["C01", "C02", "C03", "C04", "C05", "C07", "C08", "C09", "C10"],
          kind_free_text="TLA+ mechanism spec of trigger_events + observer spec, TLC (exhaustive, behaviour generation, trace validation), Rust harness fw_replay / fw_random"),
 ]
 
